@@ -26,7 +26,7 @@
    fixed by /repo de58475 - the stage-2 theorems are now unconditional).
    [resave_guard] is the conjunction of the three remaining guards; on the reader's range it is EQUIVALENT
    to well-formedness ([read_wf_exact]): there is no further class in the model. *)
-From PsdV Require Import Base.Prelude Psd.Codec Psd.Model Psd.Proofs Psd.Legacy Psd.Corr Psd.Leaf Psd.LeafProofs Psd.Resave Psd.ResaveProofs Psd.ResaveWrite.
+From PsdV Require Import Base.Prelude Psd.Codec Psd.Model Psd.Proofs Psd.Legacy Psd.Leaf Psd.LeafProofs Psd.Resave Psd.ResaveProofs Psd.ResaveWrite.
 From Coq Require Import ZArith List Bool Lia.
 Import ListNotations.
 Open Scope Z_scope.
@@ -410,7 +410,10 @@ Print Assumptions descriptor_resave_refuted.
 Example descriptor_resave_satisfiable :
   exists blk t' s n, read_dblock [] false [] (w7 ++ [114;122;110]) = Ok (blk, t') /\ dguard t' (dblock_val blk) = true /\
     write_dblock t' 4 blk = Ok (s, n) /\ read_dblock [] false t' s = Ok (blk, t').
-Proof. do 4 eexists. split; [vm_compute; reflexivity|]. split; [vm_compute; reflexivity|]. split; vm_compute; reflexivity. Qed.
+Proof.
+  do 4 eexists. split; [vm_compute; reflexivity|]. split; [vm_compute; reflexivity|].
+  split; [vm_compute; reflexivity|vm_compute; reflexivity].     (* in this order: the second goal mentions the bytes the first one computes *)
+Qed.
 
 (* the container level for free (Psd/Typed.v): any class reader [rd] / writer [w] pair whose values re-save, inside a
    TaggedBlock of either version, any block padding, any key (4- or 8-byte length), whatever follows the block *)
